@@ -5,6 +5,7 @@ CONSTANTS
   Alpha = "q2"
   MaxLen = 5
   MaxDepth = 6
+  Lax = FALSE
 INVARIANTS Lattice WellNested ContentModelOK DocOrder RefOK
 CONSTRAINT Emit
 CHECK_DEADLOCK FALSE
